@@ -7,6 +7,7 @@ package c02
 import (
 	"fmt"
 	"math/rand"
+	"strings"
 
 	"verif/harness/c01"
 )
@@ -15,7 +16,12 @@ type Area struct{}
 
 func (Area) Name() string { return "c02" }
 
-func (Area) Exec(input string) string { return c01.Exec(input) }
+func (Area) Exec(input string) string {
+	if strings.HasPrefix(input, "web ") {
+		return RunWeb(input)
+	}
+	return c01.Exec(input)
+}
 
 func clone(x []string) []string { return append([]string{}, x...) }
 
@@ -86,4 +92,5 @@ func (Area) Gen(r *rand.Rand, tier string, emit func(string)) {
 		emit(c01.RandomScenario(r, c01.GenOpts{Faults: i%2 == 0, Unaware: true}))
 	}
 	c01.GenE2E(r, ne, true, emit)
+	GenWeb(r, tier, emit)
 }
